@@ -95,6 +95,13 @@ def install(I, W, st, info):
     I.lib["new:Event"] = new_event
     I.lib["deco:instance_descriptor"] = lambda I, st, fv, args, kwargs, ctx: None
 
+    def getattr_static(I, st, fv, args, kwargs, ctx):
+        # inspect.getattr_static(type(obj), name, default): the class-level descriptor of `name`
+        # (A-DESCR: the Parameter that governs attribute access on the class), here the ghost
+        # object `class_param` whose default is what the instance showed so far
+        return [(st, info["class_param"])]
+    I.lib["inspect.getattr_static"] = getattr_static
+
 
 def current_value(I, st, info):
     if info.get("obj") is not None:
@@ -133,6 +140,10 @@ def set_contract(level, wcfg="B"):
         sh.fields["watchers"] = pwatch
         sh.init["watchers"] = pwatch
         info.update({"self": self, "T": T})
+        # the class-level Parameter (self may be an instance-level copy of it)
+        cp, CT = S.param_obj(I, st, "Parameter", {"default": None}, label="class_param")
+        info["class_param"] = cp
+        info["class_default"] = CT["default"]
         val = Sym(U.fresh("val"))
         info["val"] = val
         if level == "instance":
@@ -297,10 +308,16 @@ def set_contract(level, wcfg="B"):
                 out.append(("C03/watcher-%d-called-after-the-store" % i, cur == I.term(evh["new"])))
             out.append(("C03/event-new-is-the-installed-object[%d]" % i, I.term(evh["new"]) == (validated[-1] if validated else val)))
             if info["obj"] is not None:
-                old_t = info["old"].t if info["with_old"] else T["default"]
+                # what the object showed before: its own value, else the default of the class
+                # Parameter (or of `self`, for constants pinned at construction)
+                old_t = info["old"].t if info["with_old"] else None
             else:
                 old_t = T["default"]
-            out.append(("C03/event-old-is-the-replaced-object[%d]" % i, I.term(evh["old"]) == old_t))
+            if old_t is not None:
+                out.append(("C03/event-old-is-the-replaced-object[%d]" % i, I.term(evh["old"]) == old_t))
+            else:
+                out.append(("C03/event-old-is-the-replaced-object[%d]" % i,
+                            z3.Or(I.term(evh["old"]) == info["class_default"], I.term(evh["old"]) == T["default"])))
         if trace and info["obj"] is not None:
             out.append(("C03/no-dispatch-on-uninitialized-object", init == U.TRUE))
         if not isinstance(oc, Raise):
